@@ -1,5 +1,7 @@
 """Per-property op streams, part A (C01..C09). Each function returns a list of Case."""
 from streams import *
+from refdec import Walker, LayoutError
+from gen import _default_value
 
 def sz(tier, q, t):
     return q if tier == 'quick' else t
@@ -209,7 +211,7 @@ def C01(tier, rng):
         cs.append(Case('dec.name %s' % hx(b), 'graph'))
     cs += growth_straddle_cases('dec.dns', tier)
     cs += sweep_wire_cases('dec.dns', both_layouts=False) + sweep_rr_wire_cases()
-    cs += header_count_cases() + label_length_octet_cases()
+    cs += header_count_cases() + label_length_octet_cases() + reserved_label_type_cases()
     if tier != 'thorough':
         return cs
     return c01_thorough_chunks(cs)
@@ -329,6 +331,72 @@ def label_length_octet_cases():
         cs.append(Case('dec.dns %s' % hx(b'\0\0\0\0\0\1' + b'\0' * 6 + w + b'\0\1\0\1'), 'label-octet'))
         w2 = b'\1x\0' + bytes([n]) + b'b' * n + b'\xc0\x00'
         cs.append(Case('dec.question %s' % hx(w2[3:] + b'\0\1\0\1'), 'label-octet'))
+    return cs
+
+def reserved_label_type_cases():
+    """valid compressed messages in which the first octet of a compression pointer is rewritten with the RESERVED label types
+    (top bits 01 and 10): such an octet is neither a length nor a pointer and must be refused, wherever the pointer was"""
+    cs = []
+    seen = 0
+    for rr in sweep_rrs():
+        if rr['ty'] not in (2, 6, 15, 33, 12, 5) or seen >= 60: continue
+        m = sweep_msg(rr)
+        b, _ = render(m, Layout(random.Random(1), compress=1.0, flipcase=0.0, pad_addr=0.0))
+        w = Walker(b)
+        try: w.msg()
+        except LayoutError: continue
+        pos = sorted({p for (_s, _c, ptrs, _h, _t) in w.names for (p, _t2) in ptrs})
+        if not pos: continue
+        seen += 1
+        for p_ in pos:
+            for top in (0x40, 0x80):
+                bb = bytearray(b); bb[p_] = (bb[p_] & 0x3F) | top
+                cs.append(Case('dec.dns %s' % hx(bytes(bb)), 'reserved-label-type'))
+    for top in (0x40, 0x80, 0x7f, 0xbf):
+        cs.append(Case('dec.name %s' % hx(b'\3abc\0' + bytes([top, 0])), 'reserved-label-type'))
+        cs.append(Case('dec.question %s' % hx(bytes([top, 6]) + b'\0\1\0\1' + b'\3abc\0'), 'reserved-label-type'))
+        cs.append(Case('dec.rr %s' % hx(b'\3abc\0\0\2\0\1\0\0\0\0\0\2' + bytes([top, 0])), 'reserved-label-type'))
+    return cs
+
+def dnskey_flag_cases(tier):
+    """DNSKEY flags: every value with at most three bits set (all 65,536 in the thorough tier)"""
+    vals = range(65536) if tier == 'thorough' else sorted({sum(1 << i for i in c) for k in range(0, 4) for c in itertools.combinations(range(16), k)} | {0xffff, 0xfefe, 0x0101 ^ 0xffff})
+    return [Case('dec.rr %s' % hx(raw_rr(48, 1, v.to_bytes(2, 'big') + b'\3\x08key')), 'dnskey-flags') for v in vals]
+
+def long_rdata_name_cases():
+    """every record type with a name inside its RDATA, that name written in full with 255 (legal), 256, 257 and 321 octets (all
+    labels legal): the 255-octet limit holds for RDATA names of every type, not only for the shared name reader"""
+    cs = []
+    for ty in sorted(TABLE):
+        flds = TABLE[ty][2]
+        if not any(k[0] == 'd' for _, k in flds): continue
+        for total in (255, 256, 257, 321):
+            n = long_name(total) if total <= 257 else tuple([b'l' * 63] * 5)
+            base = [_default_value(kind) for _, kind in flds]
+            for i, (_, kind) in enumerate(flds):
+                if kind[0] != 'd': continue
+                vals = list(base); vals[i] = n
+                rr = {'ty': ty, 'name': (b'o',), 'ttl': 1, 'cls': 1, 'f': vals}
+                r = Renderer(Layout(random.Random(1), compress=0.0, flipcase=0.0, pad_addr=0.0)); r.rr(rr)
+                cs.append(Case('dec.rr %s' % hx(bytes(r.out)), 'long-rdata-name'))
+                m = msg_with([rr])
+                b, _ = render(m, Layout(random.Random(1), compress=0.0, flipcase=0.0, pad_addr=0.0))
+                cs.append(Case('dec.dns %s' % hx(b), 'long-rdata-name'))
+    for ty in (SVCB, HTTPS):
+        for total in (255, 256, 321):
+            n = long_name(total) if total <= 257 else tuple([b'l' * 63] * 5)
+            rr = {'ty': ty, 'name': (b'o',), 'ttl': 1, 'cls': 1, 'prio': 1, 'target': n, 'params': []}
+            r = Renderer(Layout(random.Random(1), compress=0.0)); r.rr(rr)
+            cs.append(Case('dec.rr %s' % hx(bytes(r.out)), 'long-rdata-name'))
+    return cs
+
+def odd_label_wire_cases():
+    cs = []
+    for lab in (b' lead', b'trail ', b' ', b'\t', b' both ', b'Lobby printer ', b'\xc2\xa0x', b'a\x00', b'\x7f'):
+        w = bytes([len(lab)]) + lab + b'\7example\0'
+        cs.append(Case('dec.name %s' % hx(w), 'odd-label'))
+        cs.append(Case('dec.dns %s' % hx(b'\0\0\1\0\0\1' + b'\0' * 6 + w + b'\0\1\0\1'), 'odd-label'))
+        cs.append(Case('dec.dns %s' % hx(b'\0\0\x81\x80\0\1\0\1\0\0\0\0' + w + b'\0\x0c\0\1' + b'\xc0\x0c\0\x0c\0\1\0\0\0\1' + (len(w) + 0).to_bytes(2, 'big') + w), 'odd-label'))
     return cs
 
 def addr_guard_cases():
@@ -465,6 +533,8 @@ def C03(tier, rng):
         cs += neighbour_cases(fam, size, tier, rng)
     cs += sweep_wire_cases('dec.dns') + sweep_rr_wire_cases()
     cs += svcb_every_len_cases() + header_count_cases() + label_length_octet_cases()
+    cs += reserved_label_type_cases() + dnskey_flag_cases(tier)
+    cs += long_rdata_name_cases() + odd_label_wire_cases()
     return cs
 
 def raw_rr(ty, cls, rdata, owner=b'\x01a\x00', ttl=7):
